@@ -253,6 +253,32 @@ class DimFlow:
             return self.is_cfg_term(e["e"])
         return False
 
+    def ptr_presence(self, e):
+        """`p.operator bool()` / `p != nullptr` / `p == nullptr` / `p.get() != nullptr` for a pointer-like field p of *this that is not
+        written by the analysed functions -> (field name, polarity of 'is set'), else None"""
+        def field(x):
+            x = self.base_lo.resolve(x)
+            if x.get("k") == "MCall" and self.h["cname"](x) == "get" and x.get("obj") is not None:
+                x = self.base_lo.resolve(x["obj"])
+            if x.get("k") == "Member" and x.get("field") and (x.get("b") is None or x["b"].get("k") == "This"):
+                t = self.fn.ntype(x) or ""
+                if ("shared_ptr" in t or "unique_ptr" in t or t.strip().endswith("*")) and x["n"] not in self.written_fields():
+                    return x["n"]
+            return None
+        k = e.get("k")
+        if k in ("MCall", "OpCall", "Call") and (e.get("n") == "operator bool" or self.h["cname"](e) == "operator bool") and e.get("obj") is not None:
+            f = field(e["obj"])
+            return (f, True) if f else None
+        if k in ("Bin", "OpCall") and e.get("op") in ("==", "!="):
+            ops = [e.get("lhs"), e.get("rhs")] if k == "Bin" else list(e.get("a", []))
+            if len(ops) == 2 and all(isinstance(o, dict) for o in ops):
+                for x, y in ((ops[0], ops[1]), (ops[1], ops[0])):
+                    if self.base_lo.resolve(y).get("k") == "Null":
+                        f = field(x)
+                        if f:
+                            return (f, e["op"] == "!=")
+        return None
+
     def cfg_truth(self, e):
         """truth of a test under the assumption: True / False / None (not a decided configuration test)"""
         return self._cfg_truth(e, 0)
@@ -283,6 +309,16 @@ class DimFlow:
                 return a if a == b else None
             return self._cfg_truth(e["then"] if c else e["else"], depth + 1)
         atom = None
+        # presence of an object held by a smart pointer member that the solver never re-seats while iterating (`if(_precond)`,
+        # `_precond != nullptr`): a configuration atom set(<field>)
+        ptr = self.ptr_presence(e)
+        if ptr is not None:
+            name, pos = ptr
+            a = "set(%s)" % name
+            if a in self.assume:
+                return self.assume[a] == pos
+            self.free_atoms.add(a)
+            return None
         if k == "Bin" and e.get("op") in ("==", "!=", "<", "<=", ">", ">=") and self.is_cfg_term(e["lhs"]) and self.is_cfg_term(e["rhs"]):
             atom = self.h["formula"](self.base_lo, e)
             l, r = self.base_lo.resolve(e["lhs"]), self.base_lo.resolve(e["rhs"])
@@ -407,6 +443,8 @@ class DimFlow:
             return {}
         if k == "Bool":
             return {}
+        if k == "Null":
+            return self.sys.fresh(":null")
         if k == "Ref":
             if e.get("dk") == "local":
                 v = self.lo.var.get(e.get("d"))
@@ -548,6 +586,8 @@ class DimFlow:
                 self.define(args[1], a, st)
                 return {}
             raise Unmodelled("call %s" % callee)
+        if nm == "operator bool" or (c.get("k") == "OpCall" and c.get("op") in ("==", "!=") and any(isinstance(a, dict) and self.base_lo.resolve(a).get("k") == "Null" for a in args)):
+            return {}
         if c.get("k") == "Call" and callee in ("FEAT::assertion", "FEAT::abortion"):
             # XASSERT / ASSERT / XABORTM: the asserted expression is a stated belief; its comparisons relate dimensions like any other
             if args:
@@ -579,6 +619,10 @@ class DimFlow:
         if nm.startswith("_apply_precond") or nm in ("_precond_l", "_precond_r"):
             # generalised inverse of the system operator (own scaling for the split preconditioners of the normal-equation solvers)
             zc, zd = args[0], args[1]
+            if nm == "_apply_precond" and self.assume.get("set(_precond)") is False:
+                # the configuration without a preconditioner: _apply_precond copies the defect (iterative.hpp), [z] = [r]
+                self.define(zc, self.dim(zd, st), st)
+                return {}
             if nm == "_apply_precond":
                 m = A_DIM
             else:
